@@ -10,6 +10,9 @@ def run(tier, a=None):
             specs.append({'src': 'h_c05.cpp', 'defs': ['TAG=' + t]})
             if tier != 'quick': specs.append({'src': 'h_c05.cpp', 'defs': ['TAG=' + t, 'KIDX=1'], 'filter': 'c05_.*_sym[XYT].*'})
         if not t.startswith('R'): specs.append({'src': 'h_c05.cpp', 'defs': ['TAG=' + t, 'ZERO_ROT'], 'filter': 'c05_exp.*'})
+    # zero-valued coordinates that carry a derivative (time of SGal3, a velocity of SE_2_3, a translation of SE3/SE2)
+    for t, zc, zt in (('SGal3t', 10, 9), ('SE23t', 7, 6), ('SE3t', 0, 0), ('SE2t', 0, 0)):
+        specs.append({'src': 'h_c05.cpp', 'defs': ['TAG=' + t, 'ZCOORD=%d' % zc, 'ZTCOORD=%d' % zt], 'filter': 'c05_(log|exp)_zero_coord.*'})
     tr = [{'src': 'h_trunc.cpp', 'defs': ['TAG=' + t], 'filter': 'tr_(exp|log).*', 'ap_prefixes': ['Jexp', 'Jlog']} for t in tg if not t.startswith('R')]
     cd = [{'src': 'h_cond.cpp', 'defs': ['TAG=' + t], 'filter': 'cond_exp.*', 'out_prefixes': ['Jexp']} for t in ('SE2t', 'SO3t', 'SE3t')]
     import props.common as pc, props.common2 as pc2
@@ -17,5 +20,5 @@ def run(tier, a=None):
     pc.opts = lambda tier, a=None: dict(_o(tier, a), nonfinite_check=True)
     pc2.opts = pc.opts
     return combined('C05', tier, a, specs, tr,
-        'EXACT (generic branches; exp also at exactly zero rotation): each analytic Jacobian returned by inverse/log/exp/compose/between/rplus/lplus/plus/rminus/lminus/minus/act and tangent plus/minus equals the derivative obtained by running the same real operation over dual numbers on an argument perturbed to first order independently of the library (dM(f)/dd_k = M(f) hat(J e_k) resp. df/dd_k = J e_k), per path. Two-argument derived operations: one argument symbolic, the other concretised to exact rational points (expression swell). TRUNC: Jacobians of exp/log on the Taylor region within 1e-6*max(1,B) of the generic closed forms.',
+        'EXACT (generic branches; exp also at exactly zero rotation): each analytic Jacobian returned by inverse/log/exp/compose/between/rplus/lplus/plus/rminus/lminus/minus/act and tangent plus/minus equals the derivative obtained by running the same real operation over dual numbers on an argument perturbed to first order independently of the library (dM(f)/dd_k = M(f) hat(J e_k) resp. df/dd_k = J e_k), per path. Two-argument derived operations: one argument symbolic, the other concretised to exact rational points (expression swell). The derivative of log/exp at exact rational points with one linear coordinate exactly zero (SGal3 time, SE_2_3 velocity, SE3/SE2 translation): a branch on the primal value of a dual number must not lose the derivative. TRUNC: Jacobians of exp/log on the Taylor region within 1e-6*max(1,B) of the generic closed forms.',
         ['generic branches: no magnitude bound', 'relative rotation of log/rminus/lminus results below pi', 'rplus/lplus/rminus/lminus: second argument restricted to the exact rational points K0 (quick) / K0,K1 (thorough) listed in symx/groups.h', 'COND-lite on the exp Jacobian (see C06)', 'groups: ' + ','.join(tg)], cond_specs=cd)
